@@ -1,6 +1,11 @@
 package main
 
-import "fmt"
+import (
+	"encoding/json"
+	"fmt"
+	"os"
+	"strings"
+)
 
 // runExtraEngine dispatches to the engines that are not the SMT VC engine.
 func runExtraEngine(eng *Engine, spec, prop, tier string, seed int, verif, repo string) ([]*Obligation, map[string]interface{}, error) {
@@ -16,6 +21,49 @@ func runExtraEngine(eng *Engine, spec, prop, tier string, seed int, verif, repo 
 		return eng.effectsGlobals(props), nil, nil
 	case "effects:secrecy":
 		return eng.secrecy(props), nil, nil
+	case "bounded:c16":
+		return runBounded(verif, repo, "c16", prop, tier, seed, "spg/bounded/presets")
+	case "ground:c16":
+		obs, cov := eng.groundC16()
+		return obs, cov, nil
 	}
 	return nil, nil, fmt.Errorf("unknown engine %q", spec)
+}
+
+// runBounded runs a harness as a bounded check that is part of the verdict (labelled bounded,
+// never counted as proved): its hits become violated obligations, its statistics go to evidence.
+func runBounded(verif, repo, harness, prop, tier string, seed int, obl string) ([]*Obligation, map[string]interface{}, error) {
+	statsFile, err := os.CreateTemp("", "verif-stats-")
+	if err != nil {
+		return nil, nil, err
+	}
+	statsFile.Close()
+	defer os.Remove(statsFile.Name())
+	os.Setenv("VERIF_REPLAY_STATS", statsFile.Name())
+	defer os.Unsetenv("VERIF_REPLAY_STATS")
+	hits, log, err := runHarness(verif, repo, harness, replayReq{Property: prop, Tier: tier, Seed: seed})
+	if err != nil {
+		return nil, nil, err
+	}
+	parts := strings.SplitN(obl, "/", 3)
+	o := &Obligation{Func: parts[0], Kind: parts[1], Name: parts[2], Props: []string{prop}, Solver: "bounded"}
+	cov := map[string]interface{}{}
+	var stats map[string]interface{}
+	if b, err := os.ReadFile(statsFile.Name()); err == nil && len(b) > 0 {
+		json.Unmarshal(b, &stats)
+	}
+	if stats == nil && len(hits) == 0 {
+		o.Result = "unknown"
+		o.Raw = "bounded harness did not complete: " + trunc(log, 1500)
+		return []*Obligation{o}, cov, nil
+	}
+	cov["bounded_standins"] = []interface{}{map[string]interface{}{"harness": harness, "stats": stats, "note": "bounded check by execution of the real code; not counted as proved"}}
+	if len(hits) > 0 {
+		o.Result = "violated"
+		o.Raw = hits[0].Observed
+		o.Input, o.Observed, o.Required = hits[0].Input, hits[0].Observed, hits[0].Required
+	} else {
+		o.Result = "holds"
+	}
+	return []*Obligation{o}, cov, nil
 }
